@@ -19,10 +19,16 @@ const (
 	rhBinOpSide binOpSide = "right"
 )
 
+// errManyToManyMatch is returned when two series of the side that must be
+// unique per match group have a sample at the same step.
 type errManyToManyMatch struct {
 	sampleID          uint64
 	duplicateSampleID uint64
 	side              binOpSide
+}
+
+func (e *errManyToManyMatch) Error() string {
+	return "many-to-many matching not allowed: matching labels must be unique on one side"
 }
 
 func newManyToManyMatchError(sampleID, duplicateSampleID uint64, side binOpSide) *errManyToManyMatch {
@@ -33,107 +39,149 @@ func newManyToManyMatchError(sampleID, duplicateSampleID uint64, side binOpSide)
 	}
 }
 
-type outputSample struct {
-	lhT        int64
-	rhT        int64
-	lhSampleID uint64
-	rhSampleID uint64
-	v          float64
+// errMultipleMatches is returned when the samples of a step produce the same
+// output series twice.
+type errMultipleMatches struct {
+	msg string
 }
 
+func (e *errMultipleMatches) Error() string { return e.msg }
+
+const (
+	errMsgOneToOneMultipleMatches = "multiple matches for labels: many-to-one matching must be explicit (group_left/group_right)"
+	errMsgGroupingNotUnique       = "multiple matches for labels: grouping labels must ensure unique matches"
+)
+
+// table matches the samples of the two sides of a binary operation step by
+// step, the way the Prometheus engine does in VectorBinop. Which series belong
+// to the same match group and which output series a pair of series produces is
+// computed once per query; which series actually meet at a step, and whether
+// the match is ambiguous there, is decided from the samples of that step.
 type table struct {
 	pool *model.VectorPool
 
 	operation operation
 	card      parser.VectorMatchCardinality
 
-	outputValues []outputSample
-	// highCardOutputIndex is a mapping from series ID of the high cardinality
-	// operator to an output series ID.
-	// During joins, each high cardinality series that has a matching
-	// low cardinality series will map to exactly one output series.
-	highCardOutputIndex outputIndex
-	// lowCardOutputIndex is a mapping from series ID of the low cardinality
-	// operator to an output series ID.
-	// Each series from the low cardinality operator can join with many
-	// series of the high cardinality operator.
-	lowCardOutputIndex outputIndex
+	// manyGroups and oneGroups map the series IDs of the "many" and of the
+	// "one" side to their match group.
+	manyGroups []int
+	oneGroups  []int
+	// pairOutputs maps a pair of (many side series ID, one side series ID)
+	// of the same match group to the ID of their output series.
+	pairOutputs map[seriesPair]uint64
+
+	// Per-step state. A slot is valid for the current step if its stamp
+	// equals epoch, which is incremented for every step.
+	epoch        uint64
+	oneStamps    []uint64  // by match group: a sample of the "one" side is present
+	oneSampleIDs []uint64  // by match group: its series ID
+	oneValues    []float64 // by match group: its value
+	matchStamps  []uint64  // by match group: a one-to-one match has been emitted
+	outputStamps []uint64  // by output series: a sample has been emitted
+}
+
+type seriesPair struct {
+	manyID uint64
+	oneID  uint64
 }
 
 func newTable(
 	pool *model.VectorPool,
 	card parser.VectorMatchCardinality,
 	operation operation,
-	outputValues []outputSample,
-	highCardOutputCache outputIndex,
-	lowCardOutputCache outputIndex,
+	manyGroups []int,
+	oneGroups []int,
+	numGroups int,
+	numOutputs int,
+	pairOutputs map[seriesPair]uint64,
 ) *table {
-	for i := range outputValues {
-		outputValues[i].lhT = -1
-		outputValues[i].rhT = -1
-	}
 	return &table{
 		pool: pool,
 		card: card,
 
-		operation:           operation,
-		outputValues:        outputValues,
-		highCardOutputIndex: highCardOutputCache,
-		lowCardOutputIndex:  lowCardOutputCache,
+		operation:   operation,
+		manyGroups:  manyGroups,
+		oneGroups:   oneGroups,
+		pairOutputs: pairOutputs,
+
+		oneStamps:    make([]uint64, numGroups),
+		oneSampleIDs: make([]uint64, numGroups),
+		oneValues:    make([]float64, numGroups),
+		matchStamps:  make([]uint64, numGroups),
+		outputStamps: make([]uint64, numOutputs),
 	}
 }
 
-func (t *table) execBinaryOperation(lhs model.StepVector, rhs model.StepVector, returnBool bool) (model.StepVector, *errManyToManyMatch) {
-	ts := lhs.T
-	step := t.pool.GetStepVector(ts)
+func (t *table) execBinaryOperation(lhs model.StepVector, rhs model.StepVector, returnBool bool) (model.StepVector, error) {
+	step := t.pool.GetStepVector(lhs.T)
+	// Nothing is going to match if a side has no samples at this step. Like
+	// the Prometheus engine, do not look for duplicates in the other side then.
+	if len(lhs.SampleIDs) == 0 || len(rhs.SampleIDs) == 0 {
+		return step, nil
+	}
+	t.epoch++
 
-	lhsIndex, rhsIndex := t.highCardOutputIndex, t.lowCardOutputIndex
+	// The "one" side is the right hand side, except for group_right.
+	many, one, oneSide := lhs, rhs, rhBinOpSide
 	if t.card == parser.CardOneToMany {
-		lhsIndex, rhsIndex = rhsIndex, lhsIndex
+		many, one, oneSide = rhs, lhs, lhBinOpSide
 	}
 
-	for i, sampleID := range lhs.SampleIDs {
-		lhsVal := lhs.Samples[i]
-		outputSampleIDs := lhsIndex.outputSamples(sampleID)
-		for _, outputSampleID := range outputSampleIDs {
-			if t.card != parser.CardManyToOne && t.outputValues[outputSampleID].lhT == ts {
-				prevSampleID := t.outputValues[outputSampleID].lhSampleID
-				return model.StepVector{}, newManyToManyMatchError(prevSampleID, sampleID, lhBinOpSide)
-			}
-
-			t.outputValues[outputSampleID].lhSampleID = sampleID
-			t.outputValues[outputSampleID].lhT = lhs.T
-			t.outputValues[outputSampleID].v = lhsVal
+	// All samples of the "one" side must have a unique match group at this step.
+	for i, sampleID := range one.SampleIDs {
+		group := t.oneGroups[sampleID]
+		if t.oneStamps[group] == t.epoch {
+			return model.StepVector{}, newManyToManyMatchError(t.oneSampleIDs[group], sampleID, oneSide)
 		}
+		t.oneStamps[group] = t.epoch
+		t.oneSampleIDs[group] = sampleID
+		t.oneValues[group] = one.Samples[i]
 	}
 
-	for i, sampleID := range rhs.SampleIDs {
-		rhVal := rhs.Samples[i]
-		outputSampleIDs := rhsIndex.outputSamples(sampleID)
-		for _, outputSampleID := range outputSampleIDs {
-			outputSample := t.outputValues[outputSampleID]
-			if rhs.T != outputSample.lhT {
-				continue
-			}
-			if t.card != parser.CardOneToMany && outputSample.rhT == rhs.T {
-				prevSampleID := t.outputValues[outputSampleID].rhSampleID
-				return model.StepVector{}, newManyToManyMatchError(prevSampleID, sampleID, rhBinOpSide)
-			}
-			t.outputValues[outputSampleID].rhSampleID = sampleID
-			t.outputValues[outputSampleID].rhT = rhs.T
-
-			outputVal, keep := t.operation([2]float64{outputSample.v, rhVal}, 0)
-			if returnBool {
-				outputVal = 0
-				if keep {
-					outputVal = 1
-				}
-			} else if !keep {
-				continue
-			}
-			step.SampleIDs = append(step.SampleIDs, outputSampleID)
-			step.Samples = append(step.Samples, outputVal)
+	// For all samples of the "many" side, find the sample of the "one" side
+	// in the same match group, if any, and evaluate the operation.
+	for i, sampleID := range many.SampleIDs {
+		group := t.manyGroups[sampleID]
+		if t.oneStamps[group] != t.epoch {
+			continue
 		}
+
+		// Account for potentially swapped sidedness.
+		operands := [2]float64{many.Samples[i], t.oneValues[group]}
+		if t.card == parser.CardOneToMany {
+			operands[0], operands[1] = operands[1], operands[0]
+		}
+		outputVal, keep := t.operation(operands, 0)
+		if returnBool {
+			outputVal = 0
+			if keep {
+				outputVal = 1
+			}
+		} else if !keep {
+			continue
+		}
+
+		outputSampleID, ok := t.pairOutputs[seriesPair{manyID: sampleID, oneID: t.oneSampleIDs[group]}]
+		if !ok {
+			continue
+		}
+		if t.card == parser.CardOneToOne {
+			if t.matchStamps[group] == t.epoch {
+				return model.StepVector{}, &errMultipleMatches{msg: errMsgOneToOneMultipleMatches}
+			}
+			t.matchStamps[group] = t.epoch
+		} else {
+			// In many-to-one matching the grouping labels have to ensure a unique
+			// metric for the result vector.
+			if t.outputStamps[outputSampleID] == t.epoch {
+				return model.StepVector{}, &errMultipleMatches{msg: errMsgGroupingNotUnique}
+			}
+		}
+		t.outputStamps[outputSampleID] = t.epoch
+
+		step.SampleIDs = append(step.SampleIDs, outputSampleID)
+		step.Samples = append(step.Samples, outputVal)
 	}
 
 	return step, nil
